@@ -210,6 +210,17 @@ def check(run, repo):
                       'refitting after %s does not rebuild the system without the removed species (rows %s -> %s) or '
                       'does not store the new solution as offsets' % (how, before, len(sols.get('M', []))),
                       owner.module, fn)
+        # ... and after adding several references at once
+        if repo.find_method(ci, 'extend', missing_ok=True) is not None:
+            before = len(sols.get('M', []))
+            sols.clear()
+            more = [ref_species(I, 'refY', ('A',), Tr), ref_species(I, 'refZ', ('B', 'A'), Tr)]
+            I.call_method(r, 'extend', [], {'seq': ListV(more)})
+            res_ = I.call_method(r, 'fit_HoRT_offset', [], {})
+            ok = not isinstance(res_, Raised) and 'M' in sols and len(sols['M']) == before + 2
+            run.check(ok, 'PATH.refit', 'References.fit_HoRT_offset', label + ' extend+refit',
+                      'refitting after extending by two references does not rebuild the system with them (rows %s -> '
+                      '%s)' % (before, len(sols.get('M', []))), owner.module, fn)
     run.floor('fit instances', n_fit, 18)
     run.extra['fit_instances'] = n_fit
 
